@@ -74,6 +74,13 @@ static uint64_t state_key(const struct mstate *m) {
         h = mix64(h, n); for (size_t j = 0; j < n; j++) h = mix64(h, p[j]);
     }
     h = mix64(h, (uint64_t)m->armed); h = mix64(h, (uint64_t)(m->table * 8 + m->nullpat));
+    /* the key is the PAIR (implementation state, model state): two histories that reach the same
+     * implementation state but different model states are kept apart, so that the observation battery
+     * runs against both model states - an implementation that forgets something the model remembers
+     * (or vice versa) cannot hide behind state merging.  For a conforming implementation the number of
+     * pairs equals the number of implementation states. */
+    h = mix64(h, (uint64_t)m->mask);
+    for (int i = 0; i < NSLOT; i++) { h = mix64(h, (uint64_t)m->live[i]); if (m->live[i]) { for (int j = 0; j < 19; j++) h = mix64(h, m->s[i].secret[j]); h = mix64(h, m->s[i].birthday * 32 + m->s[i].features); } }
     return h ? h : 1;
 }
 
